@@ -33,6 +33,10 @@ def obligations(tier):
     obs.append(Ob("C11.constructor_hints", "CH", "harness.h_events", "constructor_dataflow", 300, {"VF_KIND": 2}, funcs=("chartparse.instrument.TrackEvent.from_parsed_data",)))
     obs += _ned("C11.note_event_dataflow", tier, ("chartparse.instrument.NoteEvent.from_parsed_data",), quick=("0,1", "1,5"))
     obs += _sync_section("C11", ["0,2,1"]) + [_two_maps("C11")] + _e2e("C11", [0] if tier == "quick" else [0, 7], split=(7,))
+    obs.append(Ob("C11.long_history", "CH", "harness.h_hist", "long_history", 1200,
+                  funcs=("chartparse.chart.Chart.from_file (whole pipeline, native execution)",),
+                  bounds="30/120/400 parses in one fresh interpreter alternating two of four texts that share every tick but differ in tempo map / resolution, "
+                         "each chart dropped at once (freed objects, recycled addresses): every parse identical to the first parse of its text"))
     return obs
 
 LEVEL_TEXT = ("Bounded symbolic execution (CrossHair/z3) of the real lookup and constructor code: for every "
